@@ -38,7 +38,7 @@ FILES = {
     "geometry_tools/drawtools.py": ["N8"],
     "geometry_tools/coxeter.py": ["N8"],
 }
-PIDS = ["C01", "C02", "C03", "C04", "C05", "C06", "C08", "C09", "C10", "C11", "C12",
+PIDS = ["C01", "C02", "C03", "C04", "C05", "C06", "C07", "C08", "C09", "C10", "C11", "C12",
         "C13", "C14", "C15", "C16", "C17", "C18", "C19", "C20"]
 
 CMP = {ast.Lt: ast.LtE, ast.LtE: ast.Lt, ast.Gt: ast.GtE, ast.GtE: ast.Gt,
